@@ -227,6 +227,7 @@ type Conn struct {
 	fsm dtlshandshake.FSM
 
 	replayProtectionWindow uint
+	replayAccepted         []bool // per remote epoch: a record was accepted
 
 	handshakeConfig *dtlsconfig.HandshakeConfig
 
@@ -1838,8 +1839,25 @@ func (c *Conn) protectedReplayMarker(epoch uint16, sequenceNumber uint64) (func(
 			c.updateRemoteSequenceNumber(epoch, sequenceNumber)
 		}
 
-		return latest
+		return c.newestRecord(epoch, sequenceNumber, latest)
 	}, true
+}
+
+// newestRecord tells whether the record that was just accepted is the newest
+// one received from the peer [RFC9146 Section-6]. The replay window alone
+// cannot tell: it reports sequence number 0 as its newest whenever that
+// arrives.
+func (c *Conn) newestRecord(epoch uint16, sequenceNumber uint64, latest bool) bool {
+	for len(c.replayAccepted) <= int(epoch) {
+		c.replayAccepted = append(c.replayAccepted, false)
+	}
+	first := !c.replayAccepted[epoch]
+	c.replayAccepted[epoch] = true
+	if sequenceNumber == 0 && !first {
+		return false
+	}
+
+	return latest
 }
 
 func (c *Conn) queueIfCipherSuiteUninitialized(
@@ -1975,8 +1993,11 @@ func (c *Conn) legacyReplayMarker(header *recordlayer.Header) (func() bool, bool
 		// makes every genuine record of the handshake look like a replay.
 		return func() bool { return false }, true
 	}
+	epoch, sequenceNumber := header.Epoch, header.SequenceNumber
 
-	return markPacketAsValid, true
+	return func() bool {
+		return c.newestRecord(epoch, sequenceNumber, markPacketAsValid())
+	}, true
 }
 
 func (c *Conn) decryptLegacyPacket(
